@@ -1,0 +1,54 @@
+"""
+Guarded trace hook used by the external runtime-verification harness.
+
+Nothing happens unless the environment variable CELL_TYPE_MAPPER_VERIF
+is set to '1'. When it is, emit() appends one JSON line per event to
+$CELL_TYPE_MAPPER_VERIF_TRACE/<pid>.jsonl (a complete line per write()
+on an O_APPEND descriptor, so lines written by forked workers never
+interleave).
+"""
+import json
+import os
+
+_GUARD = 'CELL_TYPE_MAPPER_VERIF'
+_TRACE_DIR = 'CELL_TYPE_MAPPER_VERIF_TRACE'
+
+_fd_cache = dict()
+
+
+def enabled():
+    return os.environ.get(_GUARD) == '1'
+
+
+def _to_jsonable(obj):
+    if isinstance(obj, dict):
+        return {str(k): _to_jsonable(obj[k]) for k in obj}
+    if isinstance(obj, (list, tuple)):
+        return [_to_jsonable(o) for o in obj]
+    if hasattr(obj, 'tolist'):
+        return obj.tolist()
+    if obj is None or isinstance(obj, (str, int, float, bool)):
+        return obj
+    return str(obj)
+
+
+def emit(kind, **payload):
+    if os.environ.get(_GUARD) != '1':
+        return
+    trace_dir = os.environ.get(_TRACE_DIR)
+    if not trace_dir:
+        return
+    pid = os.getpid()
+    fd = _fd_cache.get(pid)
+    if fd is None:
+        # a forked child inherits the parent's cache; never reuse
+        # a descriptor registered under another pid
+        _fd_cache.clear()
+        fd = os.open(
+            os.path.join(trace_dir, f'{pid}.jsonl'),
+            os.O_WRONLY | os.O_CREAT | os.O_APPEND,
+            0o644)
+        _fd_cache[pid] = fd
+    record = {'kind': kind, 'pid': pid}
+    record.update(_to_jsonable(payload))
+    os.write(fd, (json.dumps(record) + '\n').encode('utf-8'))
